@@ -840,7 +840,7 @@ def env_for(P, ctxmode, src=''):
     caller = dict(K.CTX) if (P.callers.has_names(ctxmode) and not through) else {}      # 'loop': the event loop's frame binds none of them
     if ctxmode == 'clash' and caller:
         caller.update(CLASH)
-    merged = {**caller, **MODULE_BOUND}
+    merged = {**caller, **MODULE_BOUND, **getattr(P, 'rebound', {})}
     merged.pop('Counter', None)
     return dict(env, ctx=[[K.nid(k), K.IDX[v]] for k, v in merged.items()])
 
@@ -857,6 +857,10 @@ def apply_pre(P, pre):
     elif pre[0] == 'setitem':
         for mod in (P.mod, P.twin):
             getattr(mod, pre[1])[K.build_val(pre[2])] = K.build_val(pre[3])
+    elif pre[0] == 'rebind':                     # the module that defines the callable binds a class name to ANOTHER class from now on
+        for mod in (P.mod, P.twin):              # (a class that is defined again: a re-executed cell, a reloaded module)
+            setattr(mod, pre[1], K.CLASSES[pre[2]])
+        P.rebound = dict(getattr(P, 'rebound', {}), **{pre[1]: K.CLASSES[pre[2]]})
     else:
         raise ValueError(pre)
 
@@ -972,7 +976,7 @@ MUT_TEMPLATES = [('List[int]', '[1]', ['append', None, ["lit", ["str", [120]]]])
 
 def gen_scenario(r, idx):
     """{'src', 'twin', 'callables': [(access, kind, flavour)], 'steps': [(callable index, pre)]}"""
-    kind = r.choice(['samename', 'samename', 'mutdefault', 'sharedkw', 'context'])
+    kind = r.choice(['samename', 'samename', 'mutdefault', 'sharedkw', 'context', 'rebind', 'factory'])
     deco = r.choice(['@pedantic', '@pedantic', '@require_kwargs'])
     flav = r.choice(['sync'] * 4 + ['coroutine'])
     d = 'async def' if flav == 'coroutine' else 'def'
@@ -990,6 +994,36 @@ def gen_scenario(r, idx):
         steps = [(0, None, first)] + [(r.randrange(2), None, r.choice(['bare', 'late', 'full'])) for _ in range(r.randint(0, 1))] \
             + [(0, ['bind_late'], 'late'), (r.randrange(2), None, r.choice(['late', 'full'])), (0, None, 'full')]
         return {'src': src, 'twin': twin, 'callables': callables, 'steps': steps, 'skind': kind}
+    if kind == 'rebind':            # the defining module binds the class name of a string annotation / forward reference to another class
+        # between two calls: every call means the class the name is bound to NOW (nothing learnt about the name in an earlier call -
+        # on the function, on the annotation object or on a ForwardRef that typing shares between equal annotations - may be reused)
+        ann = r.choice(["List['P']", "Optional['P']", "Dict[str, 'P']", "'P'", "List['C1']", "Tuple['P', int]", "Dict[str, List['P']]"])
+        nm = 'C1' if 'C1' in ann else 'P'
+        retann = r.choice([' -> None', ' -> None', f' -> {ann}'])
+        def fn(n_, i, dec):
+            return (dec + '\n' if dec else '') + f'{d} {n_}(p0: {ann}){retann}:\n    return _BODY({idx * 2 + i}, locals())\n'
+        src = fn(f'c{idx}', 0, deco) + fn(f'e{idx}', 1, deco)
+        twin = fn(f'c{idx}', 0, None) + fn(f'e{idx}', 1, None)
+        callables = [(('mod', f'c{idx}'), k, flav), (('mod', f'e{idx}'), k, flav)]
+        others = [K.IDX[c] for c in (K.C2, K.U, K.Pdup, K.G)]
+        back = K.IDX[K.P if nm == 'P' else K.C1]
+        steps = [(0, None, 'full')] + [(r.randrange(2), None, 'full') for _ in range(r.randint(0, 1))] \
+            + [(0, ['rebind', nm, r.choice(others)], 'full'), (r.randrange(2), None, 'full'), (0, None, 'full')] \
+            + ([(1, ['rebind', nm, back], 'full'), (0, None, 'full')] if r.random() < 0.5 else [])
+        return {'src': src, 'twin': twin, 'callables': callables, 'steps': steps, 'skind': kind, 'name': nm}
+    if kind == 'factory':           # ONE def statement executed several times (a factory): equal code objects, equal annotations, other defaults
+        ann, good, bad = r.choice([('int', '4', "'four'"), ('str', "'w'", '7'), ('List[int]', '[1]', "['x']"), ('Optional[int]', 'None', "'n'"),
+                                   ('float', '1.5', 'None'), ('Dict[str, int]', "{'a': 1}", "{'a': 'b'}")])
+        extra = r.choice(['', 'p1: int, ', ''])
+        def fac(dec):
+            ind = '    '
+            return (f'def _mk{idx}(dflt):\n' + (ind + dec + '\n' if dec else '') + f'{ind}{d} fa{idx}({extra}p0: {ann} = dflt){ret}:\n'
+                    f'{ind}{ind}return _BODY({idx * 2}, locals())\n{ind}return fa{idx}\n'
+                    f'fa{idx}_a = _mk{idx}({good})\nfa{idx}_b = _mk{idx}({bad})\nfa{idx}_c = _mk{idx}({good})\n')
+        src, twin = fac(deco), fac(None)
+        callables = [(('mod', f'fa{idx}_a'), k, flav), (('mod', f'fa{idx}_b'), k, flav), (('mod', f'fa{idx}_c'), k, flav)]
+        order = r.choice([[0, 1, 2, 1], [1, 0, 1], [0, 1, 1, 0], [2, 1, 0]])
+        return {'src': src, 'twin': twin, 'callables': callables, 'steps': [(i, None) for i in order], 'skind': kind}
     if kind == 'sharedkw':          # two different callables: names of A's parameters are keys of B's **kwargs
         sa = r.choice(['p0: int', "p0: int, p1: str = 'd'", 'p1: int, p0: str', 'p0: List[int]', 'p0: int = 5'])
         sb = r.choice(['**kwargs: int', 'p2: str, **kwargs: int', '**kwargs: str', '*args: int, **kwargs: int', '**kwargs: List[int]'])
@@ -1058,7 +1092,7 @@ def scenario_cases(rng, n, style=None, tag='s'):
                     desc = describe(raw, mode)
                 except ValueError:
                     break
-                st = style if style is not None else rng.choice(['kw', 'kw', 'pos1', 'posall'])
+                st = 'kw' if S['skind'] in ('rebind', 'factory') else style if style is not None else rng.choice(['kw', 'kw', 'pos1', 'posall'])
                 pos, kw = gen_call(rng, F, desc, st, bad_range=4, hot=('p0', 'p1') if S['skind'] == 'sharedkw' else ())
                 if S['skind'] == 'context' and rng.random() < 0.5 and kw:
                     # an impostor: an instance of ANOTHER class that merely has the same __name__ as the class the annotation names
@@ -1067,6 +1101,21 @@ def scenario_cases(rng, n, style=None, tag='s'):
                     wrapped = imp if a[0] in ('str', 'union') else (["coll", K.IDX[list], [imp]] if a[0] == 'seq' else
                                                                   ["mapping", K.IDX[dict], [[K.lit('k'), imp]]] if a[0] == 'map' else imp)
                     kw = [[kw[0][0], K.canon_term(wrapped)]] + kw[1:]
+                if S['skind'] == 'rebind' and kw:
+                    # an instance of the class the name meant at first, of the class it means now, or of a subclass of the first
+                    now = getattr(P, 'rebound', {}).get(S['name'])
+                    first = K.P if S['name'] == 'P' else K.C1
+                    v = ["inst", K.IDX[rng.choice([first, now or first, now or K.G, K.G])]]
+                    a = desc['params'][0]['ann']
+                    def wrap(a, v):
+                        if a[0] == 'seq': return ["coll", K.IDX[list], [wrap(a[3], v)]]
+                        if a[0] == 'map': return ["mapping", K.IDX[dict], [[K.lit('k'), wrap(a[4], v)]]]
+                        if a[0] == 'tuple': return ["tup", K.IDX[tuple], [v, K.lit(1)]]
+                        return v
+                    kw = [[kw[0][0], K.canon_term(wrap(a, v))]] + kw[1:]
+                if S['skind'] == 'factory' and rng.random() < 0.7:    # the default matters only when the parameter is omitted
+                    kw = [kv for kv in kw if K.name_of(kv[0]) != 'p0']
+                    pos = pos[:len([p for p in desc['params'] if p['kind'] in ('po', 'pk')]) - 1]
                 if S['skind'] == 'mutdefault':                      # the mutated default matters only when the parameter is omitted
                     kw = [kv for kv in kw if K.name_of(kv[0]) != 'p1']
                     pos = pos[:len([p for p in desc['params'] if p['kind'] in ('po', 'pk')]) - 1]
